@@ -1,4 +1,74 @@
-(** C06 — property theorems (statements only; proofs by [exact]). *)
+(** C06 — property theorems (statements only; proofs by [exact]).
+
+    [M] is the const-generic modulus; a [Modular<M>] value is its field [v].  Every model function
+    returns [option]; [Some z] means: no cast/arithmetic step left its Rust type (no debug-build
+    panic, no release-build wrap) and the value is [z]. *)
 From Coq Require Import ZArith.
-From RlibV Require Import C06.Fixed C06.Model.
+From RlibV Require Import Common.Iter C06.Fixed C06.Model
+  C06.ProofsRing C06.ProofsPow C06.ProofsInv C06.ProofsMisc.
 Open Scope Z_scope.
+
+(** construction from any i64 (incl. MIN/MAX) gives the canonical representative *)
+Theorem c06_new : forall M : Z, 2 <= M < 2 ^ 31 -> forall v : Z, - 2 ^ 63 <= v < 2 ^ 63 ->
+  new M v = Some (v mod M) /\ 0 <= v mod M < M.
+Proof. exact (fun M HM v Hv => conj (new_correct M HM v Hv) (new_range M HM v)). Qed.
+
+Theorem c06_add : forall M : Z, 2 <= M < 2 ^ 31 -> forall x y : Z, 0 <= x < M -> 0 <= y < M ->
+  add M x y = Some ((x + y) mod M).
+Proof. exact add_correct. Qed.
+
+Theorem c06_sub : forall M : Z, 2 <= M < 2 ^ 31 -> forall x y : Z, 0 <= x < M -> 0 <= y < M ->
+  sub M x y = Some ((x - y) mod M).
+Proof. exact sub_correct. Qed.
+
+Theorem c06_mul : forall M : Z, 2 <= M < 2 ^ 31 -> forall x y : Z, 0 <= x < M -> 0 <= y < M ->
+  mul M x y = Some ((x * y) mod M).
+Proof. exact mul_correct. Qed.
+
+Theorem c06_neg : forall M : Z, 2 <= M < 2 ^ 31 -> forall x : Z, 0 <= x < M ->
+  neg M x = Some ((- x) mod M).
+Proof. exact neg_correct. Qed.
+
+(** exponentiation for every u64 exponent *)
+Theorem c06_pow : forall M x d : Z, 2 <= M < 2 ^ 31 -> 0 <= x < M -> 0 <= d < 2 ^ 64 ->
+  pow M x d = Some ((x ^ d) mod M).
+Proof. exact pow_correct. Qed.
+
+(** whatever the fuel, no i32 operation inside the loop of [inv] leaves i32
+    ([inr None] is the outcome of a failed checked operation) *)
+Theorem c06_inv_no_overflow : forall M : Z, 2 <= M < 2 ^ 31 -> forall v : Z, 0 <= v < M ->
+  forall fuel : positive, inv_loop M fuel v <> inr None.
+Proof. exact inv_loop_no_overflow. Qed.
+
+(** the loop of [inv] ends within any fuel above [v], in particular within the model's fuel *)
+Theorem c06_inv_terminates : forall M : Z, 2 <= M < 2 ^ 31 -> forall v : Z, 0 <= v < M ->
+  forall fuel : positive, v < Zpos fuel ->
+  exists x, inv_loop M fuel v = inr (Some x) /\ Z.abs x <= M /\ (x * v) mod M = Z.gcd v M mod M.
+Proof. exact inv_loop_terminates. Qed.
+
+(** for every residue (unit or not) [inv] returns a canonical r with r * v = gcd(v, M) mod M *)
+Theorem c06_inv_gcd : forall M : Z, 2 <= M < 2 ^ 31 -> forall v : Z, 0 <= v < M ->
+  exists r, inv M v = Some r /\ 0 <= r < M /\ (r * v) mod M = Z.gcd v M mod M.
+Proof. exact inv_general. Qed.
+
+Theorem c06_inv_correct : forall M : Z, 2 <= M < 2 ^ 31 -> forall v : Z, 0 <= v < M -> Z.gcd v M = 1 ->
+  exists r, inv M v = Some r /\ 0 <= r < M /\ (r * v) mod M = 1.
+Proof. exact inv_correct. Qed.
+
+(** (x / y) * y = x whenever y is coprime to M (prime or composite M) *)
+Theorem c06_div : forall M x y : Z, 2 <= M < 2 ^ 31 -> 0 <= x < M -> 0 <= y < M -> Z.gcd y M = 1 ->
+  exists q, div M x y = Some q /\ 0 <= q < M /\ mul M q y = Some x.
+Proof. exact div_correct. Qed.
+
+(** derived [==] on the stored representative decides congruence of the constructor arguments *)
+Theorem c06_canonical_eq : forall M a b : Z, 2 <= M < 2 ^ 31 ->
+  - 2 ^ 63 <= a < 2 ^ 63 -> - 2 ^ 63 <= b < 2 ^ 63 ->
+  exists x y, new M a = Some x /\ new M b = Some y /\ 0 <= x < M /\ 0 <= y < M /\
+              (eqb x y = true <-> a mod M = b mod M).
+Proof. exact canonical_eq. Qed.
+
+(** why the bound is needed: at M = 2^31 the constructor and the inverse overflow i32 *)
+Theorem c06_bound_needed_refuted_at_2_31 :
+  (exists v, - 2 ^ 63 <= v < 2 ^ 63 /\ new (2 ^ 31) v <> Some (v mod 2 ^ 31)) /\
+  (exists v, 0 <= v < 2 ^ 31 /\ Z.gcd v (2 ^ 31) = 1 /\ inv_loop (2 ^ 31) big_fuel v = inr None).
+Proof. exact bound_needed_2_31. Qed.
